@@ -35,6 +35,8 @@ pub enum Expect {
     WithinF { exact: f64, tol: f64 },
     /// the documented zero-variance assertion of standardized_moment(p >= 3)
     PanicZeroVariance,
+    /// any value, but no panic
+    NoPanic,
 }
 
 #[derive(Clone, Debug)]
@@ -48,6 +50,7 @@ pub struct Judged {
 pub fn judge(e: &Expect, got: &Val) -> Judged {
     match (e, got) {
         (Expect::Skip(_), _) => Judged { ok: true, ratio: None, expected: "skip".into() },
+        (Expect::NoPanic, Val::F(_)) => Judged { ok: true, ratio: None, expected: "any value".into() },
         (Expect::PanicZeroVariance, Val::Panic(m)) => {
             Judged { ok: m.contains("assertion") && m.contains("left != right"), ratio: None, expected: "assert_ne!(variance, 0.) panic".into() }
         }
